@@ -85,7 +85,9 @@ def curated():
     base = dict(spec=spec, container='sample', default_sc=False, sc=[1, 2], sc_spell=[True, False], curves=[[2.0, 1.1], [0.5, 0.9]],
                 form='list', req=[2, 1], req_spell=['name', 'pos'], perm_seed=3, err=None, seq='list', derived=None,
                 via_get_transform=False, to_rfi_first=False)
-    return [base, dict(base, container='array', req=[1], req_spell=['pos'], form='scalar')]
+    return [base, dict(base, container='array', req=[1], req_spell=['pos'], form='scalar'),
+            # an exact multiple of a round block size
+            dict(base, spec=dict(spec, n=100000, data_seed=6)), dict(base, spec=dict(spec, n=131072, data_seed=7), container='array')]
 
 
 def exhaustive_jobs(tier):
@@ -100,7 +102,7 @@ def run_job(job):
     except Exception as e:
         obs.failures.append(('crash', 'curated large sample: %s: %s' % (type(e).__name__, e)))
     return dict(evaluations=1, nontrivial=1, failures=[(t, m, job) for t, m in obs.failures[:5]],
-                labels={'curated:70001_events': 1}, claims=dict(obs.claims), samples=[], complete=True)
+                labels={'curated:%d_events' % job['spec']['n']: 1}, claims=dict(obs.claims), samples=[], complete=True)
 
 
 def _curve(c, p, kind='power'):
